@@ -14,7 +14,7 @@ use std::rc::Rc;
 pub static ENGINE: Engine = Engine {
     prop: "C04",
     level: "exploration",
-    rule: "every function f over k ordered variables with gaps (k=3: 256, also as diagrams never interned in the operating environment; k=4: 65536; operands are interned canonical diagrams) x every variable list V of length <= 3 (with repeats) over the support variables plus variables above, between and below the support x {exists, all, exists_impl}: truth table of the result = brute-force quantification; no node of the result tests a member of V; result identical (==) for every reordering / de-duplication of V (compared with the sorted duplicate-free list); V empty or disjoint from the support => result == f; all(V,f) == not(exists(V,not f)). A 185-member family over 6 variables x every permutation of the six variables and every 4- and 5-subset in three orders. Text level: the language's quantifier node on every function of 2 and 3 named variables x every list <= 3 through the real evaluator; every AST <= N nodes over a quantifier alphabet (lists incl. empty, repeated, trailing comma, any/all spellings, names reused bound and free, quantifiers inside lfp/gfp bodies) through the real parser+evaluator vs the reference. distinct = distinct (f, V, operation) + distinct formula texts",
+    rule: "every function f over k ordered variables with gaps (k=3: 256, also as diagrams never interned in the operating environment; k=4: 65536; operands are interned canonical diagrams) x every variable list V of length <= 3 (with repeats) over the support variables plus variables above, between and below the support x {exists, all, exists_impl}: truth table of the result = brute-force quantification; no node of the result tests a member of V; result identical (==) for every reordering / de-duplication of V (compared with the sorted duplicate-free list); V empty or disjoint from the support => result == f; all(V,f) == not(exists(V,not f)). A wide family: and/or chains over 33, 40, 65 and 70 variables under exists/forall of variables around ids 31/32/63/64 against diagrams built in closed form. A 185-member family over 6 variables x every permutation of the six variables and every 4- and 5-subset in three orders. Text level: the language's quantifier node on every function of 2 and 3 named variables x every list <= 3 through the real evaluator; every AST <= N nodes over a quantifier alphabet (lists incl. empty, repeated, trailing comma, any/all spellings, names reused bound and free, quantifiers inside lfp/gfp bodies) through the real parser+evaluator vs the reference. distinct = distinct (f, V, operation) + distinct formula texts",
     assumptions: &["truth tables by an independent walker; reference quantification by cofactor enumeration", "k <= 4 variables, |V| <= 3, AST size bound"],
     max_shards: 64,
     run,
@@ -279,6 +279,7 @@ fn evaluator_sweep(ctx: &mut Ctx) {
 fn run(ctx: &mut Ctx) {
     evaluator_sweep(ctx);
     long_lists(ctx);
+    wide_family(ctx, TAG);
     api_sweep(ctx, 3, 3, false);
     api_sweep(ctx, 3, 3, true);
     api_sweep(ctx, 33, 3, false);
@@ -290,6 +291,16 @@ fn run(ctx: &mut Ctx) {
 fn replay(ctx: &mut Ctx, c: &Value) {
     if c["part"].as_str() == Some("text") {
         replay_text(ctx, TAG, c);
+        return;
+    }
+    if c["part"].as_str() == Some("wide") {
+        let mut c2 = Ctx::new("C04", ctx.tier, ctx.seed, 0, 1);
+        wide_family(&mut c2, TAG);
+        for v in c2.violations {
+            if v.replay == *c {
+                ctx.violation(v.key, v.what, v.replay);
+            }
+        }
         return;
     }
     if c["part"].as_str() == Some("long") {
